@@ -960,7 +960,17 @@ PROBE_KEYS = ("user", "has_user", "logged", "cwd", "rnfr", "rest", "passive", "d
 
 
 def run_impl(n, schedule, cfg, align=None):
-    """n sessions, schedule = [(i, atom)].  Returns dict(sessions=[...], tree, steps=[probes of all sessions after each step], log)"""
+    """n sessions, schedule = [(i, atom)].  Returns dict(sessions=[...], tree, steps=[probes of all sessions after each step], log).
+    A run that exceeds its wall budget is repeated ONCE with twice the budget before it counts as frozen: a blocked event loop
+    is deterministic and freezes again, a machine that was busy for a few seconds is not an observation about aioftp
+    (not while shrinking, where the budget is lowered on purpose)"""
+    r = _run_impl(n, schedule, cfg, align, LOOP_BUDGET)
+    if "frozen" in r and 4 <= LOOP_BUDGET < 100:
+        r = _run_impl(n, schedule, cfg, align, 2 * LOOP_BUDGET)
+    return r
+
+
+def _run_impl(n, schedule, cfg, align, budget):
     backend = cfg.get("backend", "memory")
     tmp = None
     if backend != "memory":
@@ -1061,13 +1071,13 @@ def run_impl(n, schedule, cfg, align=None):
             )
 
         try:
-            with lowered_watermark(), closing_semantics(bool(cfg.get("os312"))), Watchdog(LOOP_BUDGET) as dog:
+            with lowered_watermark(), closing_semantics(bool(cfg.get("os312"))), Watchdog(budget) as dog:
                 simnet.run(main)
         except (LoopBlocked, TimeoutError):
             # the event-loop thread did not come back within the wall budget: nothing any session does can be answered
-            return {"frozen": progress["step"] or ("start", None, "", ""), "budget": LOOP_BUDGET}
+            return {"frozen": progress["step"] or ("start", None, "", ""), "budget": budget}
         if not out:
-            return {"frozen": progress["step"] or ("start", None, "", ""), "budget": LOOP_BUDGET}
+            return {"frozen": progress["step"] or ("start", None, "", ""), "budget": budget}
         return out
     finally:
         if tmp:
